@@ -674,7 +674,7 @@ def eq_total(ctx) -> None:
     walk(eq, 0, ['Operable.__eq__'])
     ctx.floor('C08.eq-total.functions', len(seen), 2)
     for fn, x, path in raises:
-        ctx.fail('C08.eq-total', fn, f'`{core.src(x)[:70]}` is reachable from the equality of operables ({" -> ".join(path)}): `==` against such a value raises instead of answering False', x, key=f'eq-raises:{fn.qual}:{core.stmt_key(x)}')
+        ctx.fail('C08.eq-total', fn, f'`{core.src(x)[:70]}` is reachable from the equality of operables ({" -> ".join(path)}): `==` against such a value raises instead of answering False', x, key=f'eq-raises:{fn.qual}:{core.call_tail(x.exc) if isinstance(x.exc, ast.Call) else core.src(x.exc)}')
     if not raises:
         ctx.ok('C08.eq-total', eq, f'no raise reachable from Operable.__eq__ through {sorted(seen)}')
 
